@@ -172,16 +172,20 @@ const LAYOUTS: &[&str] = &[
     "A: 1\n\nB: 2\n\nC: 3\n",
 ];
 
-fn enum_ops() -> Vec<Op> {
-    let mut v = vec![Op::Add];
+/// (operation, fill the new paragraph at once?)
+fn enum_ops() -> Vec<(Op, bool)> {
+    let mut v = vec![(Op::Add, true), (Op::Add, false)];
     for i in 0..4 {
-        v.push(Op::Insert(i));
+        v.push((Op::Insert(i), true));
+        v.push((Op::Insert(i), false));
     }
     for i in 0..4 {
-        v.push(Op::Remove(i));
+        v.push((Op::Remove(i), true));
     }
     v
 }
+const NE: u64 = 14;
+const HIST: u64 = 1 + NE + NE * NE + NE * NE * NE;
 
 impl PropImpl for C05 {
     type Case = Case;
@@ -189,31 +193,31 @@ impl PropImpl for C05 {
         "C05"
     }
     fn rule(&self) -> String {
-        "cases are histories of 1-8 add/insert(i)/remove(i) steps (i in 0..=len+2, in and out of range) interleaved with set on any paragraph, add/insert followed by a set on the returned handle; \
+        "cases are histories of 1-8 add/insert(i)/remove(i) steps (i in 0..=len+2, in and out of range) interleaved with set on any paragraph; add/insert is followed by a set on the returned handle in 2 of 3 cases, otherwise the paragraph stays empty until a later set; \
          start: Deb822::new(), Deb822::from_iter, or a strictly parsed generated document (leading/trailing comments, several empty lines, missing final newline). After every step: paragraphs() = \
          Vec model, kept handles agree, untouched paragraphs print identically, comment lines outside a removed paragraph survive, strict re-read gives the same non-empty paragraphs in order. \
-         (E) all histories of <= 3 structural operations (9 ops: add, insert 0..3, remove 0..3), each add/insert followed by set X=1, on 10 start layouts. Non-trivial: an in-range insert/remove on a \
+         (E) all histories of <= 3 structural operations (14 ops: add, insert 0..3 - each either filled at once with set X=k or left empty and filled after the last structural operation - and remove 0..3), on 10 start layouts. Non-trivial: an in-range insert/remove on a \
          document with >= 2 paragraphs or with leading/trailing trivia.".into()
     }
     fn expected_labels(&self) -> Vec<&'static str> {
-        vec!["op:add", "op:insert-in-range", "op:insert-at-end", "op:insert-beyond-end", "op:remove-in-range", "op:remove-beyond-end", "op:set", "start:empty", "start:built", "start:parsed", "start:leading-trivia", "start:trailing-trivia", "start:no-final-newline"]
+        vec!["op:add", "op:insert-in-range", "op:insert-at-end", "op:insert-beyond-end", "op:remove-in-range", "op:remove-beyond-end", "op:set", "add/insert-while-a-paragraph-is-still-empty", "add/insert-while-every-paragraph-is-empty", "set-fills-an-empty-paragraph-that-is-not-the-last", "start:empty", "start:built", "start:parsed", "start:leading-trivia", "start:trailing-trivia", "start:no-final-newline"]
     }
     fn budget(&self, tier: Tier) -> Budget {
         Budget { cases_per_lane: if tier == Tier::Quick { 10000 } else { 40_000 }, tape_max: 800, cpu_s: 10 }
     }
     fn spaces(&self, _tier: Tier) -> Vec<Space> {
-        vec![Space { name: "all histories of <= 3 structural operations on 10 layouts".into(), size: (1 + 9 + 81 + 729) * LAYOUTS.len() as u64, exhaustive: true }]
+        vec![Space { name: "all histories of <= 3 structural operations on 10 layouts".into(), size: HIST * LAYOUTS.len() as u64, exhaustive: true }]
     }
     fn from_enum(&self, _ctx: &mut Ctx, _tier: Tier, _space: usize, index: u64) -> Case {
-        let li = (index / 820) as usize;
-        let mut h = index % 820;
+        let li = (index / HIST) as usize;
+        let mut h = index % HIST;
         let start = match LAYOUTS[li] {
             "@empty" => Start::Empty,
             "@built" => Start::Built(vec![vec![("A".into(), "1".into())], vec![("B".into(), "2\n3".into()), ("C".into(), "4".into())]]),
             t => Start::Parsed(t.to_string()),
         };
-        let len = if h < 1 { 0 } else if h < 10 { 1 } else if h < 91 { 2 } else { 3 };
-        h -= [0, 1, 10, 91][len];
+        let len = if h < 1 { 0 } else if h < 1 + NE { 1 } else if h < 1 + NE + NE * NE { 2 } else { 3 };
+        h -= [0, 1, 1 + NE, 1 + NE + NE * NE][len];
         let all = enum_ops();
         let mut ops = vec![];
         // track the length to know where the new paragraph lands
@@ -222,29 +226,54 @@ impl PropImpl for C05 {
             Start::Built(p) => p.len(),
             Start::Parsed(t) => scan(t).paras.len(),
         };
+        // positions of paragraphs left empty, to be filled after the structural operations
+        let mut empty: Vec<usize> = vec![];
         for k in 0..len {
-            let op = all[(h % 9) as usize].clone();
-            h /= 9;
+            let (op, fill) = all[(h % NE) as usize].clone();
+            h /= NE;
             match &op {
                 Op::Add => {
                     ops.push(op);
-                    ops.push(Op::Set(n, "X".into(), format!("{}", k)));
+                    if fill {
+                        ops.push(Op::Set(n, "X".into(), format!("{}", k)));
+                    } else {
+                        empty.push(n);
+                    }
                     n += 1;
                 }
                 Op::Insert(i) => {
                     let pos = (*i).min(n);
                     ops.push(op.clone());
-                    ops.push(Op::Set(pos, "X".into(), format!("{}", k)));
+                    for e in empty.iter_mut() {
+                        if *e >= pos {
+                            *e += 1;
+                        }
+                    }
+                    if fill {
+                        ops.push(Op::Set(pos, "X".into(), format!("{}", k)));
+                    } else {
+                        empty.push(pos);
+                    }
                     n += 1;
                 }
                 Op::Remove(i) => {
                     if *i < n {
                         n -= 1;
+                        empty.retain(|e| e != i);
+                        for e in empty.iter_mut() {
+                            if *e > *i {
+                                *e -= 1;
+                            }
+                        }
                     }
                     ops.push(op);
                 }
                 _ => {}
             }
+        }
+        empty.sort();
+        for (k, e) in empty.iter().enumerate() {
+            ops.push(Op::Set(*e, "Y".into(), format!("{}", k)));
         }
         Case { start, ops }
     }
@@ -277,13 +306,18 @@ impl PropImpl for C05 {
             match t.below(if n == 0 { 2 } else { 4 }) {
                 0 => {
                     ops.push(Op::Add);
-                    ops.push(Op::Set(n, doc::gen_name(t, true), gen_value(t)));
+                    // the new paragraph is usually filled at once; sometimes it stays empty for now (a later set may fill it)
+                    if t.chance(2, 3) {
+                        ops.push(Op::Set(n, doc::gen_name(t, true), gen_value(t)));
+                    }
                     n += 1;
                 }
                 1 => {
                     let i = t.below(n + 3);
                     ops.push(Op::Insert(i));
-                    ops.push(Op::Set(i.min(n), doc::gen_name(t, true), gen_value(t)));
+                    if t.chance(2, 3) {
+                        ops.push(Op::Set(i.min(n), doc::gen_name(t, true), gen_value(t)));
+                    }
                     n += 1;
                 }
                 2 => {
@@ -324,7 +358,28 @@ impl PropImpl for C05 {
             }
         };
         let mut nt = false;
+        let mut filled: Vec<bool> = vec![true; n];
         for op in &case.ops {
+            match op {
+                Op::Add | Op::Insert(_) => {
+                    ctx.label_if(filled.iter().any(|f| !f), "add/insert-while-a-paragraph-is-still-empty");
+                    ctx.label_if(!filled.is_empty() && filled.iter().all(|f| !f), "add/insert-while-every-paragraph-is-empty");
+                }
+                _ => {}
+            }
+            match op {
+                Op::Add => filled.push(false),
+                Op::Insert(i) => filled.insert((*i).min(filled.len()), false),
+                Op::Remove(i) => {
+                    if *i < filled.len() {
+                        filled.remove(*i);
+                    }
+                }
+                Op::Set(p, _, _) => {
+                    ctx.label_if(*p + 1 < filled.len() && !filled[*p], "set-fills-an-empty-paragraph-that-is-not-the-last");
+                    filled[*p] = true;
+                }
+            }
             match op {
                 Op::Add => {
                     ctx.label("op:add");
